@@ -683,3 +683,53 @@ Section Struct2.
       forall f, length (sk i) < f -> alt_f f [] [] (sk i) = Some (a, cw (sk j)).
   Proof. intros H Haf. apply (ALT_all (S (j - i)) i t j); [lia|exact H|exact Haf]. Qed.
 End Struct2.
+
+(* ------------------------------------------------------------------------------------------ *)
+(** * elements *)
+Definition efol (r : str) : Prop :=
+  fol r /\ eat (ch "/") (cw r) = None /\ starts_repetition (cw r) = false.
+
+Section Elements.
+  Variable s : str.
+  Notation sk := (sk s).
+
+  Lemma elements_ok i ns j : D G s (ERef 21) i ns j -> efol (sk j) ->
+    exists t a, ns = [t] /\ key_is t "elements" = true /\ ast_of t = Some a /\
+      forall f, length (sk i) < f -> alt_f f [] [] (sk i) = Some (a, cw (sk j)).
+  Proof.
+    intros H (F1 & F2 & F3). destruct (D_ref_inv s _ _ _ _ _ _ def_elements H) as (ch & -> & H').
+    apply D_cat2_inv in H'. destruct H' as (j2 & n1 & n2 & -> & H1 & H2).
+    destruct (c_wsps_rep s _ _ _ _ H2) as (W & L & Le & F).
+    destruct (D_ref_inv s _ _ _ _ _ _ def_alternation H1) as (ch1 & -> & _).
+    assert (Haf : afol (sk j2)).
+    { split; [|split].
+      - destruct F as [->|(c & r & E & C)]; [exact F1|apply (fol_lay s _ _ _ E C)].
+      - rewrite W. exact F2.
+      - rewrite W, F3. reflexivity. }
+    destruct (alternation_ok s _ _ _ H1 Haf) as (a & A & P & R).
+    eexists _, a. split; [reflexivity|]. split; [reflexivity|]. split.
+    - rewrite (ast_of_inner _ _ [a]); try reflexivity.
+      rewrite args_a_app, (args_a_one _ _ P A), (args_a_noexp _ (lay_noexp _ L)). reflexivity.
+    - intros f Hlen. rewrite (R f Hlen), W. reflexivity.
+  Qed.
+End Elements.
+
+(* every derivation of a whole text as [elements] has the abstract syntax that the spec reader returns;
+   no restriction on the layout (comments and continuation lines included) *)
+Theorem reader_agrees_elements_G : forall s t,
+  D G s (ERef 21) 0 [t] (length s) ->
+  exists a, ast_of t = Some a /\ read_elements s = Some (a, []).
+Proof.
+  intros s t H.
+  assert (Hf : efol (sk s (length s))).
+  { rewrite sk_end by lia. repeat split. }
+  destruct (elements_ok s _ _ _ H Hf) as (t' & a & Et & _ & A & R). injection Et as <-.
+  exists a. split; [exact A|]. unfold read_elements.
+  change (alt_f (S (length s)) [] [] s) with (alt_f (S (length s)) [] [] (sk s 0)). rewrite R.
+  - rewrite sk_end by lia. reflexivity.
+  - change (sk s 0) with s. lia.
+Qed.
+
+Print Assumptions c_wsps_ok.
+Print Assumptions alternation_ok.
+Print Assumptions reader_agrees_elements_G.
